@@ -24,6 +24,12 @@ def flowReply (input impl : Json) : R Reply := do
   let tb ← natF input "tb"
   let ety ← natF input "ety"
   let cb ← natF input "cb"
+  -- shape of the report that put `w` in flight.  A report is the sequential composition of
+  -- `Accept` over its upkeeps (Props/C06 `report_any_of_accept`) and the other upkeeps have
+  -- other work ids, so for `w` the history is the same whatever the shape.
+  let rn ← asNat (fieldD input "n" (.num 1))
+  let rpos ← asNat (fieldD input "pos" (.num 0))
+  let firstRefused := match fieldD input "firstRefused" .null with | .bool b => b | _ => false
   let utype : String → UpkeepType := fun _ => utypeOfNat ty
   let ev (t : Nat) : Event := { workID := "w", txHash := "07", ttype := t, transmitBlock := tb, checkBlock := b, conf := cfg.minConf }
   let ops : List Op ← match phase with
@@ -70,8 +76,11 @@ def flowReply (input impl : Json) : R Reply := do
   pure { agree := agree, specModel := specM, specImpl := fail.isEmpty, diff := diff, fail := fail,
          nontrivial := (if offered then ctlChecked else ctlResult || ctlProposal),
          tags := [s!"flow:{path}", s!"flow:type={ty}", s!"flow:{phase}",
-                  s!"flow:{if mayProcess then "released" else "withheld"}"],
-         key := s!"flow/{path}/{ty}/{phase}/{cb}/{cfg.minConf}/{cfg.window}" }
+                  s!"flow:{if mayProcess then "released" else "withheld"}",
+                  s!"flow:report-size={max rn 1}",
+                  s!"flow:w-at={if rn ≤ 1 then "only" else if rpos = 0 then "first" else if rpos + 1 = rn then "last" else "middle"}"] ++
+                 (if firstRefused then ["flow:first-upkeep-refused"] else []),
+         key := s!"flow/{path}/{ty}/{phase}/{b}/{tb}/{cb}/{cfg.minConf}/{cfg.window}/{rn}/{rpos}/{firstRefused}" }
 
 def handle (input impl : Json) : R Reply := do
   if let some k := isRace input then
